@@ -27,6 +27,16 @@ def main():
     import warnings
     warnings.filterwarnings("ignore")
     import io, contextlib
+    import logging.config as _lc
+    _dict_config = _lc.dictConfig
+
+    def _no_file_handlers(cfg):
+        # the repository's logging.yaml appends every INFO line to ./root.log; checks must not grow a file in /verif
+        cfg = dict(cfg)
+        cfg["handlers"] = {k: ({"class": "logging.NullHandler"} if "FileHandler" in str(h.get("class")) else h)
+                           for k, h in cfg.get("handlers", {}).items()}
+        return _dict_config(cfg)
+    _lc.dictConfig = _no_file_handlers
     with contextlib.redirect_stdout(io.StringIO()):
         import autoarray  # noqa  (prints a numba banner)
     from symx import driver
